@@ -155,3 +155,7 @@ func init() {
 func init() {
 	claim("C06", "P1", "P2", "M2", "M1", "W1")
 }
+
+func init() {
+	claim("C07", "S1", "S2", "S3", "S4")
+}
